@@ -45,6 +45,12 @@ CHECKS = {
  "C12": dict(tech="runtime monitoring: the real binary under an input/option/fault matrix; in-process library rendering as oracle; before/after snapshots and strace syscall log for file effects",
    text="1.6k (quick) / 16k (thorough) runs of the binary built from the working tree: exit status, stdout, stderr, output file bytes compared with header + library rendering for independently mapped options; on input faults the output path must be untouched, observed by inode/mtime/bytes snapshots and (every third run) by strace -e trace=%file,write showing no syscall with write intent on that path.",
    note="env_logger feature not built; EPIPE and permission faults out of scope (root sandbox).", ref="4/C12"),
+ "C02": dict(tech="runtime monitoring of generated programs: rendered source compiled by rustc and executed against its source documents (quick_xml::de), values compared with the document ASTs",
+   text="768 (quick) / 9600 (thorough) generated programs, each the verbatim rendering for a random data-oriented history with unique value tokens, are compiled (edition 2021) and run: from_str::<Root> on every source document, plain and with deny_unknown_fields; the deserialized value (re-serialized as JSON through the derived Serialize) must hold every attribute value and text content in the field bound to it. rustc diagnostics are attributed to their program by file name.",
+   note="Oracles: rustc (default toolchain), serde 1.0.229, quick-xml 0.37.5 with overlapped-lists; programs tripping only the listed C04 duplicate-struct findings are counted and not compiled.", ref="4/C02", cat="translation_validation"),
+ "C13": dict(tech="runtime monitoring of generated programs: rendered source (serde-xml-rs preset) compiled by rustc and executed with serde_xml_rs::from_str, values compared with the document ASTs",
+   text="Same machinery as C02 with the serde-xml-rs preset and a workload inside the statement's preconditions (no prefixes/xmlns, attribute names disjoint from child names, repeated children adjacent, no mixed content). One listed known finding (text bound to $text is lost with serde-xml-rs 0.6.0); compile failures, Err results, lost attribute values and lost text of String-typed children still raise.",
+   note="serde-xml-rs 0.6.0 / xml-rs 0.8.29 (the only versions available offline and the ones pinned by the repository).", ref="4/C13", cat="translation_validation"),
 }
 
 NOT_YET = {}
